@@ -148,6 +148,17 @@ Definition aquery (A : astate) (q : query) : ans :=
     then ABool (negb (list_eqb (contents (aget A i)) (contents (aget A j)))) else ASkip
   end.
 
+(* ---- whole-buffer expressions of C++ as the copy operations they mean for a value type.
+   t is the slot of the expression's temporary (raw before and after). *)
+(* x = T(y)   and   x = f(y) with  T f(const T &b) { T c(b); return c; } *)
+Definition assign_temp_ops (t i j : nat) : list op := [OCopyNew t j; OAssign i t; ODestroy t].
+(* std::swap(x, y):  T tmp(x); x = y; y = tmp; *)
+Definition swap_ops (t a b : nat) : list op := [OCopyNew t a; OAssign a b; OAssign b t; ODestroy t].
+(* container.erase(position k) over n contiguous elements starting at slot base: the elements behind k
+   are assigned one position down, then the last one is destroyed *)
+Definition erase_ops (base k n : nat) : list op :=
+  map (fun m => OAssign (base + m) (base + m + 1)) (seq k (n - 1 - k)) ++ [ODestroy (base + n - 1)].
+
 (* target of an operation: the only slot whose value it may change *)
 Definition target (o : op) : nat :=
   match o with
